@@ -656,6 +656,20 @@ func runFile(c *vhlib.Ctx, b []byte, expInfo *string, class string) {
 			}
 		}
 	}
+	// 2b. the whole of ReadTorrent over raw bytes with the Lean decoder (grammar files: the
+	// other top-level keys are well typed there)
+	{
+		o := "rejected"
+		switch {
+		case p != "":
+			o = "panic"
+		case t != nil:
+			guard(c, "Torrent-accessors", func() { o = metaline.GeomLine(t) + " ih=" + vhlib.Hex(t.Hash) })
+		case err != nil && metaline.ErrTag(err) != "":
+			o = "err " + metaline.ErrTag(err)
+		}
+		c.Emit("rt "+vhlib.Hex(b), o)
+	}
 	c.Count(class+"/"+strings.Fields(res)[0]+func() string {
 		if f := strings.Fields(res); len(f) > 1 {
 			return ":" + f[1]
@@ -715,6 +729,12 @@ func runFile(c *vhlib.Ctx, b []byte, expInfo *string, class string) {
 		c.Emit(wtop, "write-failed")
 		c.Violate("roundtrip:write-failed", fmt.Sprint(werr), c.Case())
 		return
+	}
+	// the written bytes themselves, against the Lean encoder (and its own read-back)
+	{
+		h := sha1.Sum(buf.Bytes())
+		c.Emit(fmt.Sprintf("wtb %s %s %d %s", tiersStr(tiers1), joinOr(ws1), t.CreationDate, vhlib.Hex(t.Info)),
+			fmt.Sprintf("%d %s same-info", buf.Len(), vhlib.Hex(h[:])))
 	}
 	var t2 *tor.Torrent
 	var err2 error
